@@ -20,7 +20,8 @@ SUpdate == /\ dcfg.kind = "stream"
 SReset == dcfg.kind = "stream" /\ total > 0 /\ StreamReset /\ aboves' = <<>>
 BSetRef == dcfg.kind = "batch" /\ (\E q \in Batches, c \in Crits : SetReference(q, c)) /\ aboves' = <<>>
 BUpdate == dcfg.kind = "batch" /\ (\E q \in Batches, c \in Crits : BatchStep(q, c)) /\ aboves' = <<>>
-Next == SUpdate \/ SReset \/ BSetRef \/ BUpdate
+BReset == dcfg.kind = "batch" /\ total > 0 /\ StreamReset /\ aboves' = <<>>      \* reset() of the batch detector drops the reference as well
+Next == SUpdate \/ SReset \/ BSetRef \/ BUpdate \/ BReset
 Spec == Init /\ [][Next]_vars
 Bound == TLCGet("level") <= Depth
 
